@@ -49,7 +49,9 @@ SRV_HOSTS = [None, 'localhost', 'a.example.com', 'x.a.example.com', 'example.com
              'b.example.com:8080']
 SRV_ROUTE_PATS = ['/', '/*', '/a', '/a/*', '/a*', '/*.html', '/x/*/y', '/b', '/*/c', '/static/*', '/api/*/users']
 SRV_PATHS = ['/', '/a', '/a/b', '/ab', '/x/1/y', '/index.html', '/b', '/q/c', '/zzz', '/a?x=1', '/static/s.css', '/api/7/users',
-             '/a/b/c', '/x.html?y', '/api/users']
+             '/a/b/c', '/x.html?y', '/api/users',
+             # a query that itself contains '?' (RFC 3986 allows it): the path ends at the FIRST '?'
+             '/a?next=/b?tab=2', '/b?x=1?y=2', '/index.html?q=?', '/a/b?u=/zzz?']
 
 
 def render_conf(rng, default, hosts, cache=False):
